@@ -549,6 +549,275 @@ def clause_chunk_chain(facts, rep):
     rep.check(bad is None, 'E5.chunk-chain', fns['Clear'].qn, 'Clear / Size / Capacity over chunk chains of 1..4 chunks (%d evaluations)' % runs, fns['Clear'].loc, bad or '', facts.config)
 
 
+def clause_pool_model(facts, rep, tier):
+    """the pool against its specification by bounded exploration: Malloc / Realloc / AddChunk / GetChunkBuffer /
+    ChunkSize / Clear / Size / Capacity are interpreted from their CFGs (sv/minterp.py) on a model in which a chunk is
+    a record (capacity, size, next) at an address and the base allocator hands out fresh address ranges, over every
+    sequence of <= 2 (thorough: 3) operations from a heap pool and a pool on a 40-byte user buffer, with a 64-byte
+    chunk policy so that every boundary is near.  After each operation: a returned block is 8-aligned, lies inside the
+    buffer of a live chunk, overlaps no other block handed out since the last Clear; Realloc keeps the address when the
+    block is the most recent one and the growth fits (also exactly), otherwise copies the old bytes into the new block;
+    Malloc(0) / Realloc(.., 0) return null; Size() is the sum of the chunk sizes and covers the live blocks,
+    Capacity() the sum of the capacities; Clear leaves Size() == 0 and the first chunk."""
+    from ..minterp import Interp, Unsupported, UndefinedBehaviour
+    import itertools
+
+    class Chunk(dict):
+        def __init__(self, addr, region, **kw):
+            dict.__init__(self, **kw)
+            self.addr, self.region, self.freed = addr, region, False
+
+        def __bool__(self):
+            return True
+
+        def cast_to(self, t):
+            t = t or ''
+            if 'ChunkHeader' in t or 'void' in t:
+                return self
+            if '*' in t:
+                return self.addr
+            return self
+
+    class Raw:
+        def __init__(self, addr, n):
+            self.addr, self.n = addr, n
+
+        def cast_to(self, t):
+            if 'ChunkHeader' in (t or ''):
+                return Chunk(self.addr, self.n)
+            if '*' in (t or ''):
+                return self if 'void' in t else self.addr
+            return self
+    fns = {}
+    pol = {}
+    for f in facts.functions:
+        if f.cls_qn == POOL and f.short in ('Malloc', 'Realloc', 'AddChunk', 'GetChunkBuffer', 'Clear', 'Size', 'Capacity') and f.short not in fns:
+            fns[f.short] = f
+        if f.short == 'ChunkSize' and (f.cls_qn or '').endswith('ChunkPolicy'):
+            pol[f.cls_qn.split('::')[-1]] = f
+    rep.require(len(fns) == 7 and pol, 'C16: pool functions found: %s, policies %s' % (sorted(fns), sorted(pol)))
+    if len(fns) != 7 or not pol:
+        return
+    for f in fns.values():
+        rep.fn(f)
+    HDR = 24
+    ALIGN = lambda n: (n + 7) & ~7
+
+    class World:
+        def __init__(self, user_buffer, policy):
+            self.next_addr = 0x10000
+            self.copies = []
+            self.freed = []
+            if user_buffer:
+                c0 = Chunk(0x8000, HDR + user_buffer, capacity=user_buffer, size=0, next=0)
+            else:
+                c0 = Chunk(0x8000, HDR, capacity=0, size=0, next=0)
+            self.first = c0
+            self.mem = {'shared_': {'chunkHead': c0, 'ownBaseAllocator': 0, 'refcount': 1, 'ownBuffer': int(not user_buffer)},
+                        'cp_': {'min_chunk_size_': 64}, 'baseAllocator_': 'BASE'}
+            self.policy = policy
+            self.live = []          # (addr, aligned size)
+
+        def hook(self, e, args, env, members):
+            nm = e.get('cname') or ''
+            if nm == 'ChunkSize':
+                st = members['cp_']
+                r = Interp(self.policy, facts).run({self.policy.params[0]['id']: args[0]}, st)
+                st.clear()
+                st.update(r[2])
+                return r[0]
+            if nm == 'Malloc' and e.get('obj') is not None and len(args) == 1 and 'baseAllocator_' in show(e['obj']):
+                a = self.next_addr
+                self.next_addr += (args[0] + 0xfff) & ~0xfff
+                return Raw(a, args[0])
+            if nm == 'Free' and len(args) == 1:
+                c = args[0]
+                if not isinstance(c, Chunk) or c.freed:
+                    raise UndefinedBehaviour('Free of something that is not a live chunk')
+                c.freed = True
+                self.freed.append(c)
+                return 0
+            if nm in ('memcpy', '__builtin_memcpy') and len(args) == 3:
+                self.copies.append(tuple(args))
+                return args[0]
+            return None
+
+        def call(self, name, *args):
+            f = fns[name]
+            it = Interp(f, facts, call_hook=self.hook, max_steps=20000)
+            r = it.run({p_['id']: a for p_, a in zip(f.params, args)}, self.mem)
+            self.mem = r[2]
+            return r[0]
+
+        def chunks(self):
+            c = self.mem['shared_']['chunkHead']
+            out = []
+            while c != 0:
+                out.append(c)
+                c = dict.__getitem__(c, 'next')
+                if len(out) > 50:
+                    raise UndefinedBehaviour('the chunk list is cyclic')
+            return out
+
+    def inside(w, addr, n):
+        for c in w.chunks():
+            lo = c.addr + HDR
+            if lo <= addr and addr + n <= lo + dict.__getitem__(c, 'capacity') and not c.freed:
+                return True
+        return False
+
+    def check_block(w, p, n, what):
+        if not isinstance(p, int) or p == 0:
+            return '%s returned %r' % (what, p)
+        if p % 8:
+            return '%s returned the unaligned address 0x%x' % (what, p)
+        if not inside(w, p, ALIGN(n)):
+            return '%s: the block [0x%x, +%d) does not lie inside the buffer of a live chunk' % (what, p, ALIGN(n))
+        for (q, m) in w.live:
+            if q != p and not (p + ALIGN(n) <= q or q + m <= p):
+                return '%s: the block [0x%x, +%d) overlaps the block [0x%x, +%d) handed out earlier' % (what, p, ALIGN(n), q, m)
+        return None
+
+    def accounting(w):
+        cs = w.chunks()
+        sz, cap = w.call('Size'), w.call('Capacity')
+        if sz != sum(dict.__getitem__(c, 'size') for c in cs) or cap != sum(dict.__getitem__(c, 'capacity') for c in cs):
+            return 'Size() / Capacity() = %s / %s, the chunks sum to %s / %s' % (sz, cap, sum(dict.__getitem__(c, 'size') for c in cs), sum(dict.__getitem__(c, 'capacity') for c in cs))
+        if sz < sum(m for _, m in w.live):
+            return 'Size() = %d does not cover the %d bytes of the live blocks' % (sz, sum(m for _, m in w.live))
+        for c in cs:
+            if dict.__getitem__(c, 'size') > dict.__getitem__(c, 'capacity'):
+                return 'a chunk has size %d > capacity %d' % (dict.__getitem__(c, 'size'), dict.__getitem__(c, 'capacity'))
+        return None
+
+    def run_seq(user, policy, ops):
+        w = World(user, policy)
+        for op in ops:
+            if op[0] == 'malloc':
+                n = op[1]
+                p = w.call('Malloc', n)
+                if n == 0:
+                    if p != 0:
+                        return 'Malloc(0) returned 0x%x' % p
+                    continue
+                r = check_block(w, p, n, 'Malloc(%d)' % n)
+                if r:
+                    return r
+                w.live.append((p, ALIGN(n)))
+            elif op[0] == 'realloc':
+                if not w.live:
+                    continue
+                idx = -1 if op[1] == 'last' else 0
+                p0, m0 = w.live[idx]
+                head = w.mem['shared_']['chunkHead']
+                is_last = p0 + m0 == head.addr + HDR + dict.__getitem__(head, 'size')
+                room = dict.__getitem__(head, 'capacity') - dict.__getitem__(head, 'size')
+                new = {'same': m0, 'shrink': max(m0 - 8, 0), 'grow8': m0 + 8, 'fit': m0 + room, 'fit+8': m0 + room + 8, 'big': m0 + 200, 'zero': 0}[op[2]]
+                w.copies = []
+                p = w.call('Realloc', p0, m0, new)
+                if new == 0:
+                    if p != 0:
+                        return 'Realloc(.., %d, 0) returned 0x%x' % (m0, p)
+                    continue
+                if ALIGN(new) <= m0:
+                    if p != p0:
+                        return 'Realloc to a size that is not larger moved the block'
+                    continue
+                if is_last and ALIGN(new) - m0 <= room:
+                    if p != p0:
+                        return 'Realloc(%d -> %d) of the most recent block with %d bytes of room left did not grow in place' % (m0, new, room)
+                    w.live[idx] = (p0, ALIGN(new))
+                else:
+                    r = check_block(w, p, new, 'Realloc(%d -> %d)' % (m0, new))
+                    if r:
+                        return r
+                    if p == p0:
+                        return 'Realloc(%d -> %d) kept the address although the block cannot grow there' % (m0, new)
+                    if m0 and (p, p0, m0) not in w.copies:
+                        return 'Realloc(%d -> %d) moved the block without copying its %d bytes (copies: %s)' % (m0, new, m0, w.copies)
+                    w.live.append((p, ALIGN(new)))     # the old block stays allocated (never freed), the new one is live too
+            elif op[0] == 'clear':
+                w.call('Clear')
+                w.live = []
+                if w.call('Size') != 0:
+                    return 'Size() after Clear() is %d' % w.call('Size')
+                if w.mem['shared_']['chunkHead'] is not w.first:
+                    return 'Clear() does not leave the first (user / stub) chunk as the head'
+            r = accounting(w)
+            if r:
+                return 'after %s: %s' % (op, r)
+            for (q, m) in w.live:
+                if not inside(w, q, m):
+                    return 'after %s: the block [0x%x, +%d) handed out earlier is no longer inside a live chunk' % (op, q, m)
+        return None
+    sizes = [0, 1, 8, 9, 24, 40, 41, 64, 65, 200]
+    alphabet = [('malloc', n) for n in sizes] + [('realloc', w_, k) for w_ in ('last', 'first') for k in ('same', 'shrink', 'grow8', 'fit', 'fit+8', 'big', 'zero')] + [('clear',)]
+    depth = 3 if tier == 'thorough' else 2
+    bad = None
+    nseq = 0
+    try:
+        for pname, pf in sorted(pol.items()):
+            for user in (0, 40):
+                for d in range(1, depth + 1):
+                    for ops in itertools.product(alphabet, repeat=d):
+                        if ops[0][0] != 'malloc':
+                            continue
+                        nseq += 1
+                        try:
+                            r = run_seq(user, pf, ops)
+                        except UndefinedBehaviour as ux:
+                            r = 'undefined behaviour: %s' % ux
+                        if r:
+                            bad = '%s, %s, operations %s: %s' % (pname, 'user buffer of 40 bytes' if user else 'heap pool', list(ops), r)
+                            break
+                    if bad:
+                        break
+                if bad:
+                    break
+            if bad:
+                break
+        # three operations, the first two being allocations of boundary sizes
+        if bad is None and depth < 3:
+            firsts = [('malloc', n) for n in (1, 24, 40, 64, 65)]
+            for pname, pf in sorted(pol.items()):
+                for user in (0, 40):
+                    for a_, b_ in itertools.product(firsts, repeat=2):
+                        for c_ in alphabet:
+                            nseq += 1
+                            try:
+                                r = run_seq(user, pf, (a_, b_, c_))
+                            except UndefinedBehaviour as ux:
+                                r = 'undefined behaviour: %s' % ux
+                            if r:
+                                bad = '%s, %s, operations %s: %s' % (pname, 'user buffer of 40 bytes' if user else 'heap pool', [a_, b_, c_], r)
+                                break
+                        if bad:
+                            break
+                    if bad:
+                        break
+                if bad:
+                    break
+        # a few longer histories: fill a chunk exactly, spill, clear, reuse
+        if bad is None:
+            for pname, pf in sorted(pol.items()):
+                for user in (0, 40):
+                    for ops in ([('malloc', 40), ('malloc', 24), ('realloc', 'last', 'fit'), ('malloc', 8), ('clear',), ('malloc', 40), ('realloc', 'last', 'grow8')],
+                                [('malloc', 8), ('malloc', 200), ('malloc', 8), ('realloc', 'first', 'big'), ('clear',), ('malloc', 64), ('malloc', 1)],
+                                [('malloc', 64), ('realloc', 'last', 'fit+8'), ('realloc', 'last', 'fit'), ('malloc', 65), ('realloc', 'first', 'grow8'), ('clear',), ('malloc', 9)]):
+                        nseq += 1
+                        try:
+                            r = run_seq(user, pf, ops)
+                        except UndefinedBehaviour as ux:
+                            r = 'undefined behaviour: %s' % ux
+                        if r and bad is None:
+                            bad = '%s, %s, operations %s: %s' % (pname, 'user buffer of 40 bytes' if user else 'heap pool', list(ops), r)
+    except Unsupported as ex:
+        raise AnalysisBroken('C16: the pool model cannot interpret the allocator: %s' % ex)
+    rep.extra['pool_sequences_explored'] = nseq
+    rep.check(bad is None, 'E6.pool', POOL, 'aligned, disjoint, stable blocks and exact accounting on %d operation sequences (policies %s)' % (nseq, sorted(pol)),
+              fns['Malloc'].loc, bad or '', facts.config)
+
+
 def run(rep, tier):
     configs = [('K1', 'SimpleChunkPolicy')] if tier == 'quick' else [('K1', 'SimpleChunkPolicy'), ('K6', 'AdaptiveChunkPolicy'), ('K5', 'SimpleChunkPolicy')]
     for cfg, pol in configs:
@@ -562,6 +831,10 @@ def run(rep, tier):
         clause_e(facts, rep, pol_in_names)
         round_up_rule(facts, rep)
         clause_chunk_chain(facts, rep)
+    try:
+        clause_pool_model(get_facts('K1'), rep, tier)
+    except AnalysisBroken as ex:
+        rep.broken.append(str(ex))
     rep.trust('clang 14 front end')
     rep.assumptions += [
         'decides alignment data flow, bump-inside-chunk dominance, ChunkSize >= n, Realloc guards, zero-size early return and refcount pairing',
